@@ -34,10 +34,11 @@ FUNCTIONS = ["ConsoleApplication.run", "HelpResolver.resolve/create_resolved_com
 PART = {}
 LINES = ["greet bob", "greet", "num 5", "num abc", "num 1 2", "help", "help greet", "greet --help", "help num abc", "--version", "greet --zz", "nope",
          "greet bob --ansi", "help greet --ansi", "loose 1 2 3", "help loose", "-q greet bob", "num 7 -vvv",
-         "remote -h", "help remote", "remote add o extra", "fail -vvv --ansi", "fail -vvv --no-ansi", "count", "greet --tag a -tb", "greet al --tag c"]
+         "remote -h", "help remote", "remote add o extra", "fail -vvv --ansi", "fail -vvv --no-ansi", "count", "greet --tag a -tb", "greet al --tag c",
+         "pinned a b", "pinned c", 'greet "bob al"', "greet bob al"]
 # quick: second and third run from this sub-menu (every kind of line once)
-SHORT = [0, 3, 4, 6, 7, 8, 10, 13, 14, 18, 20, 21, 22, 23, 24, 25]
-BOUNDS = {"quick": "3 runs on one application, first line from a 26-line menu, the others from a 16-line sub-menu (quick) / the full menu (thorough); 4 table style kinds x 5 customisations x creation orders; double rendering of tables, help pages and error traces",
+SHORT = [0, 3, 4, 6, 7, 8, 10, 13, 14, 18, 20, 21, 22, 23, 24, 25, 26, 27, 28, 29]
+BOUNDS = {"quick": "3 runs on one application, first line from a 30-line menu, the others from a 20-line sub-menu (quick) / the full menu (thorough); 4 table style kinds x 5 customisations x creation orders; double rendering of tables, help pages and error traces",
           "thorough": "additionally 4 runs whose first line is an invalid value / failing help / unknown option / --ansi help"}
 OUTSIDE = ["sequences of 5-6 runs", "re-using one RawArgs OBJECT for two runs (each run gets a fresh StringArgs/ArgvArgs of its line): HelpResolver.resolve removes the leading 'help' token from the raw args it is given - observed, but the statement quantifies over command lines",
            "process-wide state outside clikit (pastel, crashtest)"]
@@ -84,6 +85,11 @@ def build():
     g.add_option("yell", "y", Option.NO_VALUE, "Yell")
     g.add_option("tag", "t", Option.MULTI_VALUED, "Tags")
     g.set_handler(CallbackHandler(_handler("greet")))
+    pn = cfg.create_command("pinned")                     # a command whose configuration was handed ONE parser object to use for every run
+    pn.add_argument("one", Argument.OPTIONAL, "One")
+    from clikit.args.default_args_parser import DefaultArgsParser
+    pn.set_args_parser(DefaultArgsParser())
+    pn.set_handler(CallbackHandler(_handler("pinned")))
     c = cfg.create_command("count")                       # the handler is given as a factory (a class): every run gets a handler of its own
     c.set_handler(Counter)
     n = cfg.create_command("num")
@@ -136,6 +142,7 @@ def sequence(k1: int, k2: int, k3: int, k4: int) -> bool:
     pre: k1 == PART["k1"] and (PART.get("k2") is None or k2 == PART["k2"])
     pre: PART["n"] > 3 or k4 == 0
     pre: not PART.get("short") or (k2 in SHORT and k3 in SHORT)
+    pre: PART.get("half") is None or (k2 in SHORT[: len(SHORT) // 2]) == (PART["half"] == 0)
     post: _
     """
     n = len(LINES) - 1
@@ -283,11 +290,12 @@ def conditions(tier):
     t = 120 if quick else 1500
     conds = []
     plan = [(k1, None, 3) for k1 in range(len(LINES))]
+    halves = [0, 1] if quick else [None]
     if not quick:
         plan += [(k1, k2, 4) for k1 in (3, 8, 10, 13) for k2 in range(len(LINES))]       # 4 runs after an invalid line / failing help / unknown option / --ansi help
     for k1, k2, nruns in plan:
-        if True:
-            conds.append({"name": "sequence[%r%s]" % (LINES[k1], "" if k2 is None else "," + repr(LINES[k2])), "fn": sequence, "timeout": t, "part": {"k1": k1, "k2": k2, "n": nruns, "short": quick},
+        for half in (halves if k2 is None else [None]):
+            conds.append({"name": "sequence[%r%s%s]" % (LINES[k1], "" if k2 is None else "," + repr(LINES[k2]), "" if half is None else ",second line from half %d of the sub-menu" % (half + 1)), "fn": sequence, "timeout": t, "part": {"k1": k1, "k2": k2, "n": nruns, "short": quick, "half": half},
                           "bounds": "runs: %r, then %s, each from %r, on one application vs fresh applications" % (LINES[k1], "2 more lines" if k2 is None else "%r and 2 more lines" % LINES[k2], LINES)})
     conds.append({"name": "sequence_twin", "fn": sequence_twin, "timeout": t, "expect": "refute", "part": {"k1": 8, "n": 2}, "bounds": "reachability twin"})
     conds.append({"name": "styles", "fn": styles, "timeout": t, "bounds": "first style kind x second kind x 5 in-place customisations x third kind; border style factories"})
